@@ -80,6 +80,13 @@ def check(s):
              necessary_for="the stored reward is the one the environment produced for the executed (bounds-clipped) action")
         s.eq("C05.3", con, nz, st.get("env_state", NONE), ref["env_next"], "carried env state == cond(done, env.initial(), successor)", loc,
              key="env-reset", necessary_for="the environment restarts after a done step")
+        # the comparisons above are made with the PRNG keys erased; a termination test may draw from its key, so the flag that is stored
+        # and the flags that gate the two restarts have to be ONE evaluation of env.terminal (and of env.truncate), not two evaluations
+        # under different keys that merely look alike
+        for fn_ in ("terminal", "truncate"):
+            evs = {x for x in walk(p.ret) if isinstance(x, tuple) and x and x[0] == "call" and x[1] == ("attr", ("param", "env"), fn_)}
+            s.ob("C05.3", con, len(evs) == 1, f"env.{fn_} is evaluated once per step: the stored flag and the restart gates share that evaluation", loc, key=f"one-{fn_}-evaluation",
+                 detail="; ".join(show(x, maxlen=120) for x in sorted(evs, key=repr)), necessary_for="the environment and the policy state restart after exactly the steps stored as done")
         s.eq("C05.3", con, nz, st.get("policy_state", NONE), ref["pol_next"], "carried policy state == cond(done, policy.reset(), post-action state)",
              loc, key="policy-reset", necessary_for="the policy state restarts after a done step")
     # ------------------------------------------------------------ C05.4 scans
